@@ -315,7 +315,7 @@ def run_case(c):
         l2 = dict(lay)
         l2['extra'] = [('KEY2', 'v1'), ('KEY1', 'v2')]
         edits.append(('values swapped between keywords', l2))
-        for an in ([('AK', 'av2')], [('AK2', 'av')], [('AK', 'av'), ('B', 'c')], None):
+        for an in ([('AK', 'av2')], [('AK2', 'av')], [('AK', 'av'), ('B', 'c')], None, [('AK', 'aw')], [('AL', 'av')], [('av', 'AK')]):
             l2 = dict(lay)
             l2['analysis'] = an
             edits.append(('analysis -> %r' % (an,), l2))
